@@ -67,6 +67,9 @@ type Req struct {
 	FragAt    []int    `json:"frag_at,omitempty"`    // IPv4: offsets (multiples of 8) in the ICMP message at which a new fragment starts
 	FragOrder int      `json:"frag_order,omitempty"` // 0 in order, 1 reversed, 2 last first, 3 even-indexed then odd-indexed
 	Chunk     Chunking `json:"chunk"`
+	// BadCk != 0: the request's ICMP checksum field is XORed with it (a damaged
+	// request: the stack need not answer, but what it sends must be right)
+	BadCk uint16 `json:"bad_ck,omitempty"`
 }
 
 // Case is a JSON-serialisable scenario.
@@ -87,6 +90,9 @@ type Case struct {
 	// burst At. Whatever the application hands in, the stack must not emit an
 	// echo reply for it (a reply that corresponds to no request).
 	Pings []PingW `json:"pings,omitempty"`
+	// Pad: link padding of injected packets (46 = up to the Ethernet minimum, other k = k trailing
+	// bytes): what follows the datagram is not payload and must not be mirrored
+	Pad int `json:"pad,omitempty"`
 }
 
 // PingW is one Write on a ping socket.
@@ -209,10 +215,17 @@ func (r Req) l4() []byte {
 	src, dst := r.srcAddr(), r.dstAddr()
 	pl := payload(r.PMode, r.PSeed, r.PLen)
 	if r.Kind == "echo" {
+		var m []byte
 		if r.V6 {
-			return codec.BuildICMPv6Echo(src, dst, 128, r.ID, r.Seq, pl)
+			m = codec.BuildICMPv6Echo(src, dst, 128, r.ID, r.Seq, pl)
+		} else {
+			m = codec.BuildICMPv4Echo(8, r.ID, r.Seq, pl)
 		}
-		return codec.BuildICMPv4Echo(8, r.ID, r.Seq, pl)
+		if r.BadCk != 0 {
+			m[2] ^= byte(r.BadCk >> 8)
+			m[3] ^= byte(r.BadCk)
+		}
+		return m
 	}
 	mac := []byte{2, 0, 0, 0, 0, 9}
 	if !r.V6 {
@@ -556,6 +569,14 @@ func runOnce(c Case, deadline time.Duration, rec bool) (fail, miss *evid.Failure
 		mtu = 1500
 	}
 	tap := netsim.NewTap(uint32(mtu))
+	if c.Pad == 46 {
+		tap.PadMin = 46
+	} else if c.Pad > 0 {
+		tap.PadIn = c.Pad
+	}
+	if rec && c.Pad > 0 {
+		evid.Label("link-padding")
+	}
 	addrs := netsim.StackCfg{Addrs4: []tcpip.Address{netsim.A4, netsim.B4}, Addrs6: []tcpip.Address{netsim.A6, netsim.B6}, Ping: len(c.Pings) > 0}
 	st := netsim.NewStack(tap, addrs)
 	defer func() { // lets the per-address echo goroutines end
@@ -676,7 +697,10 @@ func runOnce(c Case, deadline time.Duration, rec bool) (fail, miss *evid.Failure
 			s.owned = r.Dst == 0 || (r.Dst == 1 && !removedB)
 			// "while fewer than ten requests are pending every request is answered":
 			// the i-th message of a burst finds at most i earlier ones pending
-			s.required = s.owned && i < 9
+			s.required = s.owned && i < 9 && r.BadCk == 0
+			if rec && r.Kind == "echo" && r.BadCk != 0 {
+				evid.Label("req:damaged-checksum(optional)")
+			}
 			if rec && r.Kind == "echo" && r.Dst == 1 && removedB {
 				evid.Label("req:to-removed-address")
 			}
@@ -913,6 +937,9 @@ func genReq(rt *rapid.T, mtu int, noOdd6 bool, fo *focus) protoReq {
 	r.PMode = rapid.SampledFrom([]int{2, 2, 2, 2, 3, 0, 1}).Draw(rt, "pmode")
 	r.PSeed = rapid.Uint32().Draw(rt, "pseed")
 	r.TTL = uint8(rapid.SampledFrom([]int{64, 1, 255, 128}).Draw(rt, "ttl"))
+	if rapid.SampledFrom([]int{0, 0, 0, 0, 0, 0, 0, 1}).Draw(rt, "bad-ck") == 1 {
+		r.BadCk = rapid.SampledFrom([]uint16{1, 0x0100, 0x8000, 0xffff, 0x5aa5}).Draw(rt, "bad-ck-mask")
+	}
 	r.TOS = uint8(rapid.SampledFrom([]int{0, 0, 0x10, 0xfc}).Draw(rt, "tos"))
 	if !r.V6 {
 		r.Opt = rapid.SampledFrom([]int{0, 0, 0, 0, 0, 4, 8}).Draw(rt, "ipopt")
@@ -1026,6 +1053,7 @@ type protoBurst struct {
 func genCase(rt *rapid.T) Case {
 	var c Case
 	c.MTU = rapid.SampledFrom(mtus).Draw(rt, "mtu")
+	c.Pad = rapid.SampledFrom([]int{0, 0, 0, 46, 46, 1, 7}).Draw(rt, "linkpad")
 	noOdd6 := evid.IsKnownListed("F7")
 	reqGen := func(fo *focus) *rapid.Generator[protoReq] {
 		return rapid.Custom(func(rt *rapid.T) protoReq { return genReq(rt, c.MTU, noOdd6, fo) })
